@@ -257,7 +257,7 @@ theorem nameCheck_parts (full : Bool) (r : NameRow) (h : nameCheck full r = true
     · simp only [usOk, hv, hu1, hu2, Bool.and_self]
     · unfold topOk
       split at hu3
-      · rename_i hm; simp only [hm, if_true, hu3]
+      · rename_i hm; simp only [hm, if_true]; exact hu3
       · rename_i hm
         simp only [hm, hv, topLevelAttr]
         simp only [Bool.false_eq_true, if_false, Bool.and_eq_true]
